@@ -195,6 +195,7 @@ class Ctx:
 
     # ------------------------------------------------------------ output
     def finish(self):
+        for cp in self.cpasses.values(): cp.join()     # never leave a compilation (and its scratch directory) behind
         known = {'findings': [], 'fixed': []}
         if os.path.exists(KNOWN): known = json.load(open(KNOWN))
         kf = {f['key']: f for f in known.get('findings', []) if f['property'] == self.pid}
